@@ -447,7 +447,7 @@ impl FaceModify {
             (self.bold, FaceAttrs::BOLD),
             (self.italic, FaceAttrs::ITALIC),
             (self.blink, FaceAttrs::BLINK),
-            (self.strike, FaceAttrs::BOLD),
+            (self.strike, FaceAttrs::STRIKE),
         ] {
             match update {
                 Some(true) => face.attrs = face.attrs.insert(flag),
